@@ -307,11 +307,20 @@ pub fn ipfix_issues(tpls: &mut Local, x: &ipfix::IPFix, slice: &[u8]) -> Vec<Iss
 
 /// run the calls on one fresh parser; after each call judge every V9 (version 9) or IPFIX (version 10) element
 pub fn judge_calls(calls: &[Vec<u8>], version: u16) -> crate::engine::Eval {
+    judge_calls_ex(calls, version, false)
+}
+
+/// `conformant`: the calls come from the conformant stream spaces (the reference model is authoritative about which
+/// sets are decodable); not so for the deviation families
+pub fn judge_calls_ex(calls: &[Vec<u8>], version: u16, conformant: bool) -> crate::engine::Eval {
     let mut p = NetflowParser::default();
     let mut issues: Vec<Issue> = vec![];
     let mut judged = 0u64;
     let mut keyacc: Vec<u64> = vec![];
     let mut tags = vec![];
+    // reference cache (with the executable models of the recorded defects): tells "sets the parser could not decode"
+    // from "sets it should have decoded" when a message is re-exported without some of its sets
+    let mut rc = crate::refmodel::RefCache::default();
     for call in calls {
         let mut local = Local::from_parser(&p);
         let res = p.parse_bytes(call);
@@ -337,7 +346,21 @@ pub fn judge_calls(calls: &[Vec<u8>], version: u16) -> crate::engine::Eval {
                 }
                 NetflowPacket::IPFix(x) if version == 10 => {
                     judged += 1;
-                    let is = ipfix_issues(&mut local, x, slice);
+                    let mut is = ipfix_issues(&mut local, x, slice);
+                    let decodable = match crate::refmodel::ref_ipfix_sets(slice, &mut rc, &mut crate::refmodel::Q::quirky()) {
+                        Ok((_, sets, _)) => Some(sets.iter().filter(|s| matches!(s, crate::refmodel::RefSet::Decoded(_))).count()),
+                        Err(_) => None,
+                    };
+                    if let (Some(n), true) = (decodable, conformant) {
+                        if x.flowsets.len() < n {
+                            for i in is.iter_mut() {
+                                if i.sig == "ipfix/sets-not-reported-not-reexported" {
+                                    i.sig = "ipfix/decodable-sets-not-reported-not-reexported".into();
+                                    i.detail = format!("{}; the reference decodes {} sets of this message, {} are reported; message {}", i.detail, n, x.flowsets.len(), hex(slice));
+                                }
+                            }
+                        }
+                    }
                     keyacc.push(h64(&(slice, is.len())));
                     issues.extend(is);
                 }
